@@ -117,6 +117,10 @@ def vjp(tier, seed):
         L.append(VJP("douglas", s))
     for s in [dict(N=9, K=4, idx=(8, 2, 5, 0, 7, 1, 3, 6, 4)), dict(N=17, K=5, idx=(16, 3, 9, 1, 12))]:
         L.append(VJP("kernel_rim", s))
+    # the same contracts with data, predictions and incoming gradient handed in column-major
+    for fam, s in (("linear", dict(n=19, d=9, K=7)), ("sparse_linear", dict(n=7, d=5, K=5)), ("mlp", dict(n=19, d=9, K=4, h=11)),
+                   ("sparse_mlp", dict(n=7, d=5, K=5, h=6)), ("categorical", dict(n=33, K=7)), ("douglas", dict(n=9, d=3, K=4, cuts=2))):
+        L.append(VJP(fam, s, "column-major"))
     return L
 
 
